@@ -814,8 +814,74 @@ func (st *Std) ReturnsNil(r *ast.ReturnStmt, s S) string {
 		case "F":
 			return "nil"
 		}
+		if st.F.Prog.IsSentinelErr(o) {
+			return "nonnil"
+		}
 	}
 	return "unknown"
+}
+
+// IsSentinelErr: o is a package-level error variable that always holds an error:
+// declared in a loaded package as `var errX = errors.New(…)` / fmt.Errorf(…) and
+// assigned nowhere else in that package, or an exported Err*/EOF variable of a
+// package outside the module (io.EOF, sql.ErrNoRows, …).
+func (p *Prog) IsSentinelErr(o types.Object) bool {
+	v, ok := o.(*types.Var)
+	if !ok || v.IsField() || v.Pkg() == nil || v.Parent() != v.Pkg().Scope() || !types.Identical(v.Type(), types.Universe.Lookup("error").Type()) {
+		return false
+	}
+	cache := p.Aux("kit.sentinelErrs", func() any { return map[types.Object]bool{} }).(map[types.Object]bool)
+	p.auxMu.Lock()
+	r, have := cache[o]
+	p.auxMu.Unlock()
+	if have {
+		return r
+	}
+	res := false
+	pk := p.ByPath[v.Pkg().Path()]
+	if pk == nil || len(pk.Syntax) == 0 {
+		res = v.Exported() && (strings.HasPrefix(v.Name(), "Err") || v.Name() == "EOF")
+	} else {
+		inits, assigns := 0, 0
+		for _, file := range pk.Syntax {
+			ast.Inspect(file, func(n ast.Node) bool {
+				switch x := n.(type) {
+				case *ast.ValueSpec:
+					for i, nm := range x.Names {
+						if pk.TypesInfo.Defs[nm] != o {
+							continue
+						}
+						if i < len(x.Values) && len(x.Values) == len(x.Names) {
+							if call, ok := ast.Unparen(x.Values[i]).(*ast.CallExpr); ok {
+								switch QualName(Callee(pk.TypesInfo, call)) {
+								case "fmt.Errorf", "errors.New":
+									inits++
+								}
+							}
+						}
+					}
+				case *ast.AssignStmt:
+					for _, l := range x.Lhs {
+						if id, ok := ast.Unparen(l).(*ast.Ident); ok && pk.TypesInfo.Uses[id] == o {
+							assigns++
+						}
+					}
+				case *ast.UnaryExpr:
+					if x.Op == token.AND {
+						if id, ok := ast.Unparen(x.X).(*ast.Ident); ok && pk.TypesInfo.Uses[id] == o {
+							assigns++
+						}
+					}
+				}
+				return true
+			})
+		}
+		res = inits == 1 && assigns == 0
+	}
+	p.auxMu.Lock()
+	cache[o] = res
+	p.auxMu.Unlock()
+	return res
 }
 
 // execCalls runs the OnCall hook and, where the client opted in, the inline
